@@ -39,6 +39,9 @@ func explLit(s string) string { return "\"" + strings.ReplaceAll(s, "\"", "\"\""
 // RawText: the atom written by a user as SQL with inline literals.
 func (a Atom) RawText() string {
 	switch a.Op {
+	case "inempty":
+		// IN over an empty list: gorm writes (NULL), never true
+		return a.Col + " IN (NULL)"
 	case "isnull":
 		return a.Col + " IS NULL"
 	case "in":
@@ -69,6 +72,8 @@ func (a Atom) TmplText(named bool) (tmpl, explained string, arg interface{}, nam
 		ph = "@" + name
 	}
 	switch a.Op {
+	case "inempty":
+		return a.Col + " IN " + ph, a.Col + " IN (NULL)", a.emptyList(), name
 	case "isnull":
 		return a.Col + " IS NULL", a.Col + " IS NULL", nil, ""
 	case "in":
@@ -115,6 +120,8 @@ func (a Atom) Expression() clause.Expression {
 		return clause.Like{Column: a.Col, Value: v}
 	case "isnull":
 		return clause.Eq{Column: a.Col, Value: nil}
+	case "inempty":
+		return clause.IN{Column: a.Col, Values: []interface{}{}}
 	case "in":
 		vals := []interface{}{}
 		if a.IsStr {
@@ -137,9 +144,19 @@ func (a Atom) Expression() clause.Expression {
 func (a Atom) StructOK() bool {
 	return a.Op == "eq" && a.Col != "id" && (a.Col == "nick" || a.IsStr && a.S != "" || !a.IsStr && a.I != 0)
 }
-func (a Atom) MapOK() bool { return a.Op == "eq" || a.Op == "isnull" || a.Op == "in" }
+func (a Atom) MapOK() bool {
+	return a.Op == "eq" || a.Op == "isnull" || a.Op == "in" || a.Op == "inempty"
+}
+func (a Atom) emptyList() interface{} {
+	if a.IsStr {
+		return []string{}
+	}
+	return []int64{}
+}
 func (a Atom) MapValue() interface{} {
 	switch a.Op {
+	case "inempty":
+		return a.emptyList()
 	case "isnull":
 		return nil
 	case "in":
@@ -677,7 +694,7 @@ func (g *Gen) GenCExpr(depth int) *CExpr {
 		return &CExpr{Kind: "raw", Tmpl: p.Tmpl}
 	}
 	if depth == 0 || r.Chance(1, 2) {
-		return &CExpr{Kind: "atom", Atom: lib.Pick(r, g.Atoms).ID}
+		return &CExpr{Kind: "atom", Atom: g.pickPlain().ID}
 	}
 	kind := lib.Pick(r, []string{"and", "or", "or", "not"})
 	n := r.Range(1, 3)
@@ -704,12 +721,42 @@ func (g *Gen) GenCExpr(depth int) *CExpr {
 				}
 			}
 			if !anyAtom {
-				k = &CExpr{Kind: "atom", Atom: lib.Pick(r, g.Atoms).ID}
+				k = &CExpr{Kind: "atom", Atom: g.pickPlain().ID}
 			}
 		}
 		ce.Kids = append(ce.Kids, k)
 	}
 	return ce
+}
+
+// pickPlain: an atom other than IN over an empty list (whose negation gorm renders IS NOT NULL:
+// kept out of every place where it could end up negated structurally).
+func (g *Gen) pickPlain() Atom {
+	for {
+		a := lib.Pick(g.R, g.Atoms)
+		if a.Op != "inempty" {
+			return a
+		}
+	}
+}
+
+// NegatesEmptyIn: a Not call (or a group under Not, at any depth) holds a map unit with an IN over
+// an empty list.
+func NegatesEmptyIn(cs []Call, byID map[int]Atom, under bool) bool {
+	for _, c := range cs {
+		neg := under || c.Kind == "not"
+		if neg {
+			for _, id := range c.Unit.Members {
+				if byID[id].Op == "inempty" {
+					return true
+				}
+			}
+		}
+		if NegatesEmptyIn(c.Unit.Calls, byID, neg) {
+			return true
+		}
+	}
+	return false
 }
 
 // GenUnit draws a unit. hostile: random case / whitespace / redundant parentheses in raw text.
@@ -1129,7 +1176,20 @@ func GenAtoms(r *lib.Rng, names, nicks []string) []Atom {
 	n := r.Range(4, 7)
 	for len(out) < n {
 		a := Atom{ID: len(out) + 1}
-		switch r.Intn(12) {
+		switch r.Intn(13) {
+		case 12:
+			// IN over an empty list, on the nullable column (never together with its IS NULL
+			// atom: gorm negates both to IS NOT NULL)
+			a.Col, a.Op, a.IsStr = "nick", "inempty", true
+			clashNull := false
+			for _, b := range out {
+				if b.Col == "nick" && b.Op == "isnull" {
+					clashNull = true
+				}
+			}
+			if clashNull {
+				continue
+			}
 		case 10:
 			if NoIDAtoms {
 				continue
@@ -1152,6 +1212,15 @@ func GenAtoms(r *lib.Rng, names, nicks []string) []Atom {
 			a.Col, a.Op, a.IsStr, a.S = "name", "like", true, lib.Pick(r, []string{"a%", "%b", "%c%"})
 		case 7:
 			a.Col, a.Op = "nick", "isnull"
+			clashEmpty := false
+			for _, b := range out {
+				if b.Op == "inempty" {
+					clashEmpty = true
+				}
+			}
+			if clashEmpty {
+				continue
+			}
 		case 8:
 			a.Col, a.Op, a.IsStr, a.S = "nick", "eq", true, lib.Pick(r, nicks)
 			if r.Chance(1, 3) {
@@ -1259,13 +1328,13 @@ func (g *Gen) atomUnit() Unit {
 	if ms := g.eqAtomsDistinctCols(1, false); len(ms) > 0 && g.R.Bool() {
 		return Unit{Form: "map", Members: ms}
 	}
-	return Unit{Form: "expr", CE: &CExpr{Kind: "atom", Atom: lib.Pick(g.R, g.Atoms).ID}}
+	return Unit{Form: "expr", CE: &CExpr{Kind: "atom", Atom: g.pickPlain().ID}}
 }
 
 // Catalogue returns the interesting units (fresh random atoms/formatting each call).
 func (g *Gen) Catalogue() []Unit {
 	ce := func(kind string, kids ...*CExpr) *CExpr { return &CExpr{Kind: kind, Kids: kids} }
-	at := func() *CExpr { return &CExpr{Kind: "atom", Atom: lib.Pick(g.R, g.Atoms).ID} }
+	at := func() *CExpr { return &CExpr{Kind: "atom", Atom: g.pickPlain().ID} }
 	rawce := func(kind string) *CExpr {
 		u := g.rawUnit(kind, "inline", false)
 		return &CExpr{Kind: "raw", Tmpl: u.Tmpl}
